@@ -36,6 +36,7 @@ var targets = []string{
 	"TraefikOidc.VerifyJWTSignatureAndClaims", "TraefikOidc.isUserAuthenticated",
 	"TraefikOidc.performPreVerificationChecks", "TraefikOidc.cacheVerifiedToken", "TraefikOidc.VerifyToken", "TraefikOidc.RevokeToken",
 	"Cache.removeItem", "Cache.evictOldest", "Cache.Set", "Cache.Get", "Cache.Delete", "Cache.Cleanup",
+	"TokenCache.Set", "TokenCache.Get", "TokenCache.Delete",
 }
 
 // calls that read or change the state shared between requests (token cache, revocation list, limiter): the translated function
@@ -59,12 +60,12 @@ var statefulExternals = map[string]statefulExt{
 // functions of /repo that are not translated but called by translated ones: they become fields of the instance record
 // (`Go.Inst`), i.e. parameters the theorems quantify over.  name as written at the call site -> result types
 var externals = map[string][]string{
-	"parseJWT":             {"jwt", "error"},
-	"t.extractClaimsFunc":  {"obj", "error"},
-	"t.jwkCache.GetJWKS":   {"jwks", "error"}, // (its arguments are fields of the instance: the field of `Go.Inst` takes none)
-	"jwkToPEM":             {"pem", "error"},
-	"extractClaims":        {"obj", "error"},
-	"verifySignature":      {"error"},
+	"parseJWT":            {"jwt", "error"},
+	"t.extractClaimsFunc": {"obj", "error"},
+	"t.jwkCache.GetJWKS":  {"jwks", "error"}, // (its arguments are fields of the instance: the field of `Go.Inst` takes none)
+	"jwkToPEM":            {"pem", "error"},
+	"extractClaims":       {"obj", "error"},
+	"verifySignature":     {"error"},
 }
 
 // externals whose arguments are not passed on (constant per instance)
@@ -77,14 +78,15 @@ var sessGetters = map[string]string{"GetAuthenticated": "bool", "GetAccessToken"
 var globals = map[string]string{"ClockSkewToleranceFuture": "dur", "ClockSkewTolerancePast": "dur", "ClockSkewTolerance": "dur", "defaultBlacklistDuration": "dur"}
 
 type fn struct {
-	key      string
-	decl     *ast.FuncDecl
-	needsNow bool
-	recvMut  bool // method of a struct it changes in place (cache.go): takes the struct and returns the new one next to its result
-	stateful bool // reads or changes the shared state: takes `ops` and `w`, returns the new state next to its result
-	fuel     bool // contains a general `for` loop: takes a fuel argument, result wrapped in Option (none = fuel exhausted)
-	calls    []string
-	retTypes []string
+	key        string
+	decl       *ast.FuncDecl
+	needsNow   bool
+	recvMut    bool // method of a struct it changes in place (cache.go): takes the struct and returns the new one next to its result
+	stateful   bool // reads or changes the shared state: takes `ops` and `w`, returns the new state next to its result
+	fuel       bool // contains a general `for` loop: takes a fuel argument, result wrapped in Option (none = fuel exhausted)
+	calls      []string
+	retTypes   []string
+	paramTypes []string
 }
 
 var (
@@ -159,7 +161,7 @@ func leanType(t string) string {
 		return "(List Go.JWK)"
 	case "pem":
 		return "Go.Pem"
-	case "cache":
+	case "cache", "tcache":
 		return "Go.CacheS"
 	case "citem":
 		return "Go.CacheItem"
@@ -220,6 +222,8 @@ func goType(e ast.Expr) string {
 				return "jwks"
 			case "Cache":
 				return "cache"
+			case "TokenCache":
+				return "tcache"
 			}
 		}
 		if sel, ok := t.X.(*ast.SelectorExpr); ok && src(sel) == "list.Element" {
@@ -557,6 +561,8 @@ func (c *ctx) selector(x *ast.SelectorExpr) (string, string) {
 		return r + ".Keys", "jwklist"
 	case "jwk.Kid", "jwk.Kty":
 		return r + "." + x.Sel.Name, "str"
+	case "tcache.cache": // (a TokenCache is its one Cache: the wrapper struct has no other field)
+		return r, "cache"
 	case "cache.items":
 		return r + ".items", "cmap"
 	case "cache.elems":
@@ -808,7 +814,7 @@ func (c *ctx) call(x *ast.CallExpr) (string, string) {
 				as, _ := c.args(x)
 				return "(" + r + "." + sel.Sel.Name + " " + strings.Join(as, " ") + ")", rts[0]
 			}
-			if g := byName[sel.Sel.Name]; g != nil && g.decl.Recv != nil && (t == "inst" || t == "jwt") {
+			if g := methodOf(t, sel.Sel.Name); g != nil && (t == "inst" || t == "jwt") {
 				return c.callTranslated(g, x, r)
 			}
 			fail(x, "unsupported method %s on a %s", sel.Sel.Name, t)
@@ -856,9 +862,9 @@ func (c *ctx) recvStmt(call *ast.CallExpr, k func() string) (string, bool) {
 		fail(call, "delete on a %s", mt)
 	}
 	if sel, ok := call.Fun.(*ast.SelectorExpr); ok {
-		if id, ok := sel.X.(*ast.Ident); ok {
-			if ln, _, ok := c.lookup(id.Name); ok && ln == r {
-				if g := byName[sel.Sel.Name]; g != nil && g.recvMut && len(g.retTypes) == 0 {
+		if rx, rt, okx := c.tryExpr(sel.X); okx {
+			if rx == r {
+				if g := methodOf(rt, sel.Sel.Name); g != nil && g.recvMut && len(g.retTypes) == 0 {
 					c.f.calls = append(c.f.calls, g.key)
 					parts := []string{leanName(g.key)}
 					if g.fuel {
@@ -870,7 +876,12 @@ func (c *ctx) recvStmt(call *ast.CallExpr, k func() string) (string, bool) {
 						parts = append(parts, "now")
 					}
 					parts = append(parts, r)
-					as, _ := c.args(call)
+					as, ts := c.args(call)
+					for i := range as {
+						if i < len(g.paramTypes) && g.paramTypes[i] == "any" && ts[i] != "any" {
+							as[i] = anyWrap(as[i], ts[i])
+						}
+					}
 					parts = append(parts, as...)
 					callS := "(" + strings.Join(parts, " ") + ")"
 					if g.fuel {
@@ -882,6 +893,21 @@ func (c *ctx) recvStmt(call *ast.CallExpr, k func() string) (string, bool) {
 		}
 	}
 	return "", false
+}
+
+// tryExpr translates an expression if it can (no failure escapes)
+func (c *ctx) tryExpr(e ast.Expr) (s, t string, ok bool) {
+	defer func() {
+		if p := recover(); p != nil {
+			if _, isU := p.(unsupported); isU {
+				ok = false
+				return
+			}
+			panic(p)
+		}
+	}()
+	s, t = c.expr(e)
+	return s, t, true
 }
 
 // takePre returns (and forgets) the bindings of the state-changing calls made by the expressions translated so far; a statement
@@ -903,6 +929,8 @@ func anyWrap(v, t string) string {
 		return "(Go.Any.bool " + v + ")"
 	case "str":
 		return "(Go.Any.str " + v + ")"
+	case "obj":
+		return "(Go.Any.obj " + v + ")"
 	}
 	fail(nil, "a %s passed as interface{}", t)
 	return ""
@@ -977,6 +1005,15 @@ func (c *ctx) callTranslated(g *fn, x *ast.CallExpr, recv string) (string, strin
 }
 
 func leanName(key string) string { return strings.Replace(key, ".", "_", 1) }
+
+// methodOf finds the translated method `name` of the Go type behind a type tag
+func methodOf(tag, name string) *fn {
+	goT := map[string]string{"inst": "TraefikOidc", "jwt": "JWT", "cache": "Cache", "tcache": "TokenCache"}[tag]
+	if goT == "" {
+		return nil
+	}
+	return funcs[goT+"."+name]
+}
 
 // ---------------------------------------------------------------------------------------------- statements
 // stmts translates a statement list; k produces the code that follows it (called once per path that falls through)
@@ -1087,6 +1124,23 @@ func (c *ctx) assign(s *ast.AssignStmt, k func() string) string {
 			return fmt.Sprintf("let (%s, %s) := %s %s\n%s", a, ok, fnm, v, k())
 		case *ast.CallExpr:
 			fun := src(r.Fun)
+			if sel, ok := r.Fun.(*ast.SelectorExpr); ok && c.f.recvMut {
+				if rx, rt, okx := c.tryExpr(sel.X); okx && rx == c.recv {
+					if g := methodOf(rt, sel.Sel.Name); g != nil && g.recvMut && len(g.retTypes) == 2 && !g.fuel {
+						c.f.calls = append(c.f.calls, g.key)
+						parts := []string{leanName(g.key)}
+						if g.needsNow {
+							c.f.needsNow = true
+							parts = append(parts, "now")
+						}
+						parts = append(parts, c.recv)
+						as, _ := c.args(r)
+						parts = append(parts, as...)
+						a, b := bind(s.Lhs[0], g.retTypes[0]), bind(s.Lhs[1], g.retTypes[1])
+						return fmt.Sprintf("let ((%s, %s), %s) := (%s)\n%s", a, b, c.recv, strings.Join(parts, " "), k())
+					}
+				}
+			}
 			if se, ok := statefulExternals[fun]; ok && len(se.res) == 2 {
 				if c.loops > 0 {
 					fail(r, "call on the shared state inside a loop")
@@ -1205,6 +1259,8 @@ func (c *ctx) ret(s *ast.ReturnStmt) string {
 				v = zero(c.f.retTypes[i])
 			} else if i < len(c.f.retTypes) && c.f.retTypes[i] == "any" {
 				v = "Go.Any.nil"
+			} else if i < len(c.f.retTypes) && c.f.retTypes[i] == "obj" {
+				v = "([] : Go.Obj)"
 			} else {
 				fail(s, "nil returned as something that is not an error")
 			}
@@ -1539,14 +1595,16 @@ func (f *fn) translate() (code string, err string) {
 		t := goType(r.Type)
 		c.recv = c.declare(r.Names[0].Name, t)
 		params = append(params, fmt.Sprintf("(%s : %s)", c.recv, leanType(t)))
-		if t == "cache" {
+		if t == "cache" || t == "tcache" {
 			f.recvMut = true
 		}
 	}
+	f.paramTypes = nil
 	for _, p := range f.decl.Type.Params.List {
 		t := goType(p.Type)
 		for _, n := range p.Names {
 			params = append(params, fmt.Sprintf("(%s : %s)", c.declare(n.Name, t), leanType(t)))
+			f.paramTypes = append(f.paramTypes, t)
 		}
 	}
 	var rts []string
@@ -1638,7 +1696,9 @@ func main() {
 				if want[key] && x.Body != nil {
 					f := &fn{key: key, decl: x}
 					funcs[key] = f
-					byName[x.Name.Name] = f
+					if x.Recv == nil {
+						byName[x.Name.Name] = f
+					}
 				}
 			case *ast.GenDecl:
 				if x.Tok == token.VAR || x.Tok == token.CONST {
